@@ -327,11 +327,13 @@ inductive Change where
   | add (name lines : Nat)
   | rm (name lines : Nat)
   | mod (name oldL newL : Nat) (script : List (EK × Nat))
+  | ren (src name oldL newL : Nat) (script : List (EK × Nat))
 
 def applyChange (s : BSt) : Change → Except String BSt
   | .add n l => insertion true s n l
   | .rm n l => deletion true s n l
   | .mod n o nl sc => modification true s n o nl sc
+  | .ren src n o nl sc => renamed true s src n o nl sc
 
 /-- the same change on the plain map (`t` = value of the commit) -/
 def specChange (t : Nat) (w : World) : Change → World
@@ -341,12 +343,18 @@ def specChange (t : Nat) (w : World) : Change → World
     match wGet w n with
     | some a => wSet w n (expected t sc a)
     | none => wSet w n (List.replicate nl t)
+  | .ren src n _ nl sc =>
+    match wGet w src with
+    | some a => wSet (wDrop w src) n (expected t sc a)
+    | none => wSet w n (List.replicate nl t)
 
 /-- what the property assumes of a change: declared line counts agree with the tracked file (C11) -/
 def changeOK (w : World) : Change → Prop
   | .add _ _ => True
   | .rm n l => ∀ a, wGet w n = some a → l = a.length
   | .mod n _ _ sc => ∀ a, wGet w n = some a → consumed sc ≤ a.length
+  -- a rename goes to a name that is not tracked (git cannot report anything else), and is a real rename
+  | .ren src n _ _ sc => src ≠ n ∧ ∀ a, wGet w src = some a → consumed sc ≤ a.length ∧ wGet w n = none
 
 theorem wGet_of_mem (w : World) (name : Nat) (a : List Nat) (hnd : (w.map (·.1)).Nodup) (hm : (name, a) ∈ w) :
     wGet w name = some a := by
@@ -398,6 +406,53 @@ theorem modification_time (s s' : BSt) (n o nl : Nat) (sc : List (EK × Nat))
   · repeat' (split at hr)
     all_goals first | (simp at hr; done) | (simp only [Except.ok.injEq] at hr; subst hr; rfl)
 
+theorem wGet_none_absent (w : World) (name : Nat) (h : wGet w name = none) : ∀ p ∈ w, p.1 ≠ name := by
+  intro p hp he
+  unfold wGet at h
+  cases hfd : w.find? (fun p => decide (p.1 = name)) with
+  | none => rw [List.find?_eq_none] at hfd; exact absurd he (by simpa using hfd p hp)
+  | some q => simp [hfd] at h
+
+theorem getFile_setFile_same (s : BSt) (name : Nat) (f : List Node) : getFile (setFile s name f) name = some f := by
+  simp [getFile, setFile, List.find?_cons]
+
+theorem wGet_wSet_same (w : World) (name : Nat) (a : List Nat) : wGet (wSet w name a) name = some a := by
+  simp [wGet, wSet, List.find?_cons]
+
+theorem wSet_wSet (w : World) (name : Nat) (a b : List Nat) : wSet (wSet w name a) name b = wSet w name b := by
+  simp only [wSet, List.filter_cons, ne_eq, not_true_eq_false, decide_false, Bool.false_eq_true, if_false, List.filter_filter,
+    Bool.and_self]
+
+/-- **C01 (file renamed)**: moving a tracked file to a name that is not tracked keeps the refinement - same lines, no report -/
+theorem rename_inv (s : BSt) (w : World) (src name : Nat) (f : List Node) (h : Inv s w) (hf : getFile s src = some f)
+    (hne : src ≠ name) (hfree : wGet w name = none) :
+    Inv (renameFile s src name f) (wSet (wDrop w src) name (flat f)) := by
+  have hmem := getFile_mem s src f hf
+  obtain ⟨hgood, hw⟩ := h.files src f hmem
+  have habs := wGet_none_absent w name hfree
+  refine ⟨?_, ?_, ?_, ?_⟩
+  · simp only [renameFile, setFile, dropFile, wSet, wDrop, List.map_cons, map_fst_filter, h.names]
+  · intro n g hm
+    simp only [renameFile, setFile, dropFile, List.mem_cons, Prod.mk.injEq, List.mem_filter] at hm
+    rcases hm with ⟨rfl, rfl⟩ | ⟨⟨hm, hn1⟩, hn2⟩
+    · exact ⟨hgood, by simp [wSet]⟩
+    · obtain ⟨h1, h2⟩ := h.files n g hm
+      refine ⟨h1, ?_⟩
+      simp only [wSet, wDrop, List.mem_cons, Prod.mk.injEq, List.mem_filter]
+      right
+      exact ⟨⟨h2, by simpa using hn1⟩, by simpa using hn2⟩
+  · simp only [wSet, wDrop, List.map_cons, map_fst_filter, List.nodup_cons, List.mem_filter]
+    exact ⟨by simp, (h.nodup.filter _).filter _⟩
+  · intro v
+    show emSum (evTriples s.evs) v = _
+    rw [h.hist v]
+    have habs' : ∀ p ∈ wDrop w src, p.1 ≠ name := fun p hp => habs p (List.mem_filter.1 hp).1
+    simp only [wSet, wCount_cons]
+    rw [wCount_filter_absent (wDrop w src) name v habs']
+    have := wCount_filter_present w src (flat f) v h.nodup hw
+    simp only [wDrop]
+    omega
+
 /-- **C01 (one change)**: whatever the change, a successful `Consume` step keeps the refinement -/
 theorem change_inv (s s' : BSt) (w : World) (c : Change) (h : Inv s w) (ht : s.time < END) (hmt : NoMark s.time)
     (hok : changeOK w c) (hr : applyChange s c = .ok s') : Inv s' (specChange s.time w c) ∧ s'.time = s.time := by
@@ -441,6 +496,28 @@ theorem change_inv (s s' : BSt) (w : World) (c : Change) (h : Inv s w) (ht : s.t
       have hc := hok (flat f) hw
       simp only [specChange, hw]
       exact modification_spec s s' w n o nl sc f h ht hmt hf hc hr
+  | ren src n o nl sc =>
+    simp only [applyChange] at hr
+    obtain ⟨hne, hok⟩ := hok
+    cases hf : getFile s src with
+    | none =>
+      have hw := wGet_none_of_absent s w src h hf
+      have hr' : insertion true s n nl = .ok s' := by unfold renamed at hr; simpa [hf] using hr
+      simp only [specChange, hw]
+      exact ⟨insertion_spec s s' w n nl h ht hmt hr', insertion_time s s' n nl hr'⟩
+    | some f =>
+      have hmem := (h.files src f (getFile_mem s src f hf)).2
+      have hw := wGet_of_mem w src (flat f) h.nodup hmem
+      obtain ⟨hc, hfree⟩ := hok (flat f) hw
+      have hr' : modification true (renameFile s src n f) n o nl sc = .ok s' := by
+        unfold renamed at hr; simpa [hf] using hr
+      have hi := rename_inv s w src n f h hf hne hfree
+      have ht' : (renameFile s src n f).time = s.time := rfl
+      have hm := modification_spec (renameFile s src n f) s' _ n o nl sc f hi (ht' ▸ ht) (ht' ▸ hmt)
+        (getFile_setFile_same _ n f) hc hr'
+      rw [wSet_wSet, ht'] at hm
+      simp only [specChange, hw]
+      exact ⟨hm, (modification_time _ s' n o nl sc hr').trans ht'⟩
 
 end Bd
 
@@ -692,6 +769,31 @@ theorem applyUpds_tagged (t : Nat) (ht : t < END) (hmt : NoMark t) (us : List Up
   obtain ⟨_, _, em, hevs, hcur, _⟩ := applyUpds_spec t ht hmt us f evs f' evs' hg h
   exact ⟨em, by rw [hevs, evTriples_append, evTriples_toEvs], hcur⟩
 
+theorem modification_tagged (s s' : BSt) (n o nl : Nat) (sc : List (EK × Nat))
+    (hgood : ∀ f, getFile s n = some f → Good f) (ht : s.time < END) (hmt : NoMark s.time)
+    (hr : modification true s n o nl sc = .ok s') : Tagged s s' s.time := by
+  unfold modification at hr
+  cases hf : getFile s n with
+  | none => simp only [hf] at hr; exact insertion_tagged s s' n nl hr
+  | some f =>
+    simp only [hf] at hr
+    split at hr
+    · simp at hr
+    · cases htr : translate sc 0 (.eq, 0) [] with
+      | error e => simp [htr] at hr
+      | ok us =>
+        simp only [htr] at hr
+        cases hap : applyUpds true s.time us f s.evs with
+        | error e => simp [hap] at hr
+        | ok r =>
+          obtain ⟨f', evs'⟩ := r
+          simp only [hap] at hr
+          split at hr
+          · simp at hr
+          · simp only [Except.ok.injEq] at hr
+            subst hr
+            exact applyUpds_tagged s.time ht hmt us f s.evs f' evs' (hgood f hf) hap
+
 theorem change_tagged (s s' : BSt) (w : World) (c : Change) (h : Inv s w) (ht : s.time < END) (hmt : NoMark s.time)
     (hr : applyChange s c = .ok s') : Tagged s s' s.time := by
   cases c with
@@ -712,27 +814,21 @@ theorem change_tagged (s s' : BSt) (w : World) (c : Change) (h : Inv s w) (ht : 
         exact applyUpds_tagged s.time ht hmt _ f s.evs f' evs' (h.files n f (getFile_mem s n f hf)).1 hap
   | mod n o nl sc =>
     simp only [applyChange] at hr
-    unfold modification at hr
-    cases hf : getFile s n with
+    exact modification_tagged s s' n o nl sc (fun f hf => (h.files n f (getFile_mem s n f hf)).1) ht hmt hr
+  | ren src n o nl sc =>
+    simp only [applyChange] at hr
+    unfold renamed at hr
+    cases hf : getFile s src with
     | none => simp only [hf] at hr; exact insertion_tagged s s' n nl hr
     | some f =>
       simp only [hf] at hr
-      split at hr
-      · simp at hr
-      · cases htr : translate sc 0 (.eq, 0) [] with
-        | error e => simp [htr] at hr
-        | ok us =>
-          simp only [htr] at hr
-          cases hap : applyUpds true s.time us f s.evs with
-          | error e => simp [hap] at hr
-          | ok r =>
-            obtain ⟨f', evs'⟩ := r
-            simp only [hap] at hr
-            split at hr
-            · simp at hr
-            · simp only [Except.ok.injEq] at hr
-              subst hr
-              exact applyUpds_tagged s.time ht hmt us f s.evs f' evs' (h.files n f (getFile_mem s n f hf)).1 hap
+      have hg : Good f := (h.files src f (getFile_mem s src f hf)).1
+      have := modification_tagged (renameFile s src n f) s' n o nl sc (by
+        intro f' hf'
+        rw [renameFile, getFile_setFile_same] at hf'
+        simp only [Option.some.injEq] at hf'
+        exact hf' ▸ hg) ht hmt hr
+      exact this
 
 theorem changes_tagged (cs : List Change) : ∀ (s s' : BSt) (w : World), Inv s w → s.time < END → NoMark s.time →
     changesOK s.time w cs → runChanges s cs = .ok s' → Tagged s s' s.time := by
